@@ -122,6 +122,25 @@ def observe(cmd, args):
             res.setdefault(json.dumps(op), set()).add(canon(r))
         if hash(ss) != h0 or str(ss) != s0: return "OBJECT-CHANGED"
         return canon({k: sorted(v) for k, v in res.items()})
+    if cmd == "det.shared.spec":    # one Specifier object, a sequence of operations in the given order
+        text, ops = args[0], json.loads(args[1])
+        try: sp = Specifier(text)
+        except InvalidSpecifier: return "E"
+        res = {}
+        h0, s0 = hash(sp), str(sp)
+        for op in ops:
+            try:
+                if op[0] == "contains": r = sp.contains(op[1])
+                elif op[0] == "in": r = op[1] in sp
+                elif op[0] == "filter": r = [str(x) for x in sp.filter(op[1])]
+                elif op[0] == "str": r = str(sp)
+                elif op[0] == "hash": r = hash(sp) == h0
+                elif op[0] == "pre": r = sp.prereleases
+                elif op[0] == "eq": r = sp == Specifier(text)
+            except InvalidVersion: r = "EV"
+            res.setdefault(json.dumps(op), set()).add(canon(r))
+        if hash(sp) != h0 or str(sp) != s0: return "OBJECT-CHANGED"
+        return canon({k: sorted(v) for k, v in res.items()})
     if cmd == "law.det.perm":       # order-insensitive inputs: two supply orders must give the same observable value
         kind, seed, items = args[0], int(args[1]), list(args[2:])
         r = random.Random(seed); p = items[:]; r.shuffle(p)
